@@ -71,6 +71,45 @@ def fams_c19(tier, seed):
     ]
 
 
+def toks(x, pat):
+    return sorted(re.findall(pat, x or ""))
+
+
+def rel_tokens(pat):
+    """A sequential disagreement touches the property iff a driver-side monitor fired or the first
+    differing result differs in the tokens matching `pat`."""
+    def f(d):
+        if d.get("monitor"):
+            return True
+        fd = d.get("first_diff")
+        return bool(fd) and toks(fd[2], pat) != toks(fd[3], pat)
+    return f
+
+
+MIXED = {"send": 4, "sendt": 3, "sendot": 3, "try": 3, "tryrt": 1, "recv": 4, "recvt": 3, "tryr": 3, "tryrrt": 1, "drain": 2,
+         "asend1": 2, "asend2": 2, "asend3": 1, "asenddrop": 2, "arecv1": 2, "arecv2": 2, "arecv3": 1, "arecvdrop": 2, "stream3": 2,
+         "close": 1, "drops": 1, "dropr": 1, "clones": 1, "len": 1}
+STRATS = ("random", "uniform", "pct:2", "pct:3", "pct:5", "after:unlock:1", "after:unlock:2", "after:guard:2", "after:pwrite:1",
+          "after:pread:1", "after:st:1", "after:cas:1", "after:now:3", "after:unpark:1")
+
+
+def conc_ledger(tier, seed, name="mixed"):
+    n = 400 if tier == "quick" else 12000
+    return [(Profile(name, MIXED, threads=(2, 4), ops=(1, 3), n=n, strategies=STRATS, extra="tickp=30"),
+             ["stuck", "mutex"], ["ledger", "lifetime", "timeout"])]
+
+
+def fams_ledger(tier, seed):
+    if tier == "quick":
+        return [
+            Family("full3", "exh", FULL, "0,1,2,u", depth=3, configs=("w:s", "l:a", "z:a", "b:s")),
+            Family("async5", "exh", "SyvABMc", "0,1", depth=5, configs=("l:a", "b:s")),
+            Family("timed4", "exh", "TUyvAc", "0,1", depth=4, configs=("w:s", "l:a", "z:s")),
+            Family("rand40", "rand", FULL + "w", "0,1,2,u", length=40, n=3000, configs=("w:a", "z:s", "l:s", "b:a")),
+        ]
+    return fams_c18("thorough", seed)
+
+
 LOCK_MACROS = {"try": 4, "tryrt": 4, "tryr": 4, "tryrrt": 4, "len": 2, "scount": 1, "send": 2, "recv": 2, "clones": 1, "drain": 1, "asend1": 1, "arecv1": 1}
 
 
@@ -84,6 +123,32 @@ def conc_c17(tier, seed):
 
 
 PROPS = {
+    "C01": dict(
+        level="proof",
+        lean_targets=["Kanal.Props.C01"],
+        props_files=["Kanal/Props/C01.lean"],
+        leancheck=["Kanal.Props.C01", "Kanal.Lemmas.Ledger", "Kanal.Lemmas.Struct"],
+        families=fams_ledger,
+        conc=conc_ledger,
+        conc_corpus=["D2_send_option_timeout_double_drop.prog", "D5_recv_future_waker_race.prog"],
+        relevant=rel_tokens(r"\bv\d+|drained \d+ \[[\d,]*\]| d\d+|kept"),
+        trusted=["specgen/seqdrv text protocol", "conc scheduler + ledger oracle (harness)", "payload bytes: C04"],
+        assumptions=COMMON_ASSUME + ["the model's steps are critical sections and final stores; the physical copy of a value happens between a peer's critical section and its final store, while nobody else may touch the slot (C07)"],
+        explanation="Ledger invariant (custody of every message = where it physically is) proved inductive over every step incl. hand-off windows; corollaries: received values distinct and all offered, every offered value in exactly one accounted place, places exclusive; negative theorems for D1/D3 variants",
+    ),
+    "C05": dict(
+        level="proof",
+        lean_targets=["Kanal.Props.C05"],
+        props_files=["Kanal/Props/C05.lean"],
+        leancheck=["Kanal.Props.C05", "Kanal.Lemmas.Ledger"],
+        families=fams_ledger,
+        conc=lambda tier, seed: conc_ledger(tier, seed, "mixed-drops"),
+        conc_corpus=["D2_send_option_timeout_double_drop.prog"],
+        relevant=rel_tokens(r" d\d+|kept|leak|dbl"),
+        trusted=["specgen/seqdrv text protocol", "conc scheduler + ledger oracle (harness)", "Rust runs each value's destructor exactly when the model logs a drop (scope-end drops, MaybeUninit, forget): observed through payload Drop events"],
+        assumptions=COMMON_ASSUME,
+        explanation="drop log duplicate-free and disjoint from received values in every reachable state; Option variants hand back exactly on failure; after the last handle is gone every offered value is received, destroyed once or handed back (c05_no_leak); negative theorem for the D1 variant",
+    ),
     "C17": dict(
         level="proof",
         lean_targets=["Kanal.Props.C17", "Kanal.Tie"],
